@@ -97,8 +97,9 @@ RULES["C07"] = ("timer benches on small nanosecond lattices (many coinciding dea
 sim_plan("C07", ["timer", "bulk"], miri_parts=["timer"])
 LEVEL["C09"] = "exploration"
 RULES["C09"] = ("timer benches with keyed/auto-keyed one-shot and periodic actions cancelled by the driver between steps, by handlers at earlier times and by earlier same-time same-origin "
-                "events (generator rules R1-R3 make the outcome schedule independent); handler invocations compared with the reference interpreter; non-trivial = at least one cancellation issued")
-sim_plan("C09", ["timer"], miri_parts=["timer"])
+                "events (generator rules R1-R3 make the outcome schedule independent); handler invocations compared with the reference interpreter; part bulk: 100-3000 keyed actions (model events and EventSource actions, one-shot and periodic) "
+                "cancelled through their key or by dropping the auto key, in a row at the head of the queue, followed by one live action: none runs and step() goes straight to the live one; non-trivial = at least one cancellation issued")
+sim_plan("C09", ["timer", "bulk"], miri_parts=["timer"])
 LEVEL["C10"] = "exploration"
 RULES["C10"] = ("timer benches with periodic actions (periods down to 1 ns, commensurable; other actions scheduled, cancelled and bursts of same-time actions around them), random partitions of the horizon into step/step_until; occurrence times compared with the "
                 "reference interpreter; non-trivial = bench containing a periodic action whose handlers ran")
